@@ -93,7 +93,7 @@ pub fn decode(bytes: &[u8], focus: StressFocus, tier: Tier) -> StressCase {
             }
             for _ in 0..nt {
                 let bursts = 1 + d.choose(4);
-                threads.push((0..bursts).map(|_| (d.choose(n_keys) as u8, 1 + d.choose(scale as usize) as u16)).collect());
+                threads.push((0..bursts).map(|_| (d.choose(n_keys) as u8, 1 + d.choose16(scale as usize) as u16)).collect());
             }
         }
     }
